@@ -112,11 +112,16 @@ SCHEDULE = (("rel2", 0, 4), ("all", 0, 6), ("rel1", 7, 5), ("all", 0, 20), ("rel
 # (hypothesis selection, random seed, hard wall-clock seconds); "relN" = relevance closure of depth N (sound weakening)
 
 
+RETRY_SCHEDULE = (("rel2", 3, 30), ("all", 3, 60), ("rel1", 5, 30), ("rel3", 5, 45), ("all", 11, 120))
+
+
 def _run(args):
     """one obligation: z3 CLI in a subprocess (hard timeout), escalating schedule of seeds/budgets"""
     idx, smts, timeout_ms, seeds = args
     t0 = time.time()
     sched = SCHEDULE if len(seeds) > 1 else (("all", 0, max(1, timeout_ms // 1000)),)
+    if seeds == "retry":
+        sched = RETRY_SCHEDULE
     paths = {}
     for k, smt in smts.items():
         fd, pth = tempfile.mkstemp(suffix=".smt2", prefix="pyvc_")
@@ -226,6 +231,17 @@ def discharge_records(recs, workers=None, timeout_ms=None):
         for idx, status, info, ms, backend in results:
             r = recs[idx]
             r.status, r.time_ms, r.backend, r.model = status, ms, backend, info
+        # second chance for the undecided ones, without contention (verdicts must not flip under load)
+        again = [(i, recs[i].smts, timeout_ms, "retry") for i, r in enumerate(recs)
+                 if r.status == "unknown" and not r.kind.startswith("canary")]
+        if again:
+            with ThreadPoolExecutor(max_workers=min(4, len(again))) as pool:
+                results = list(pool.map(_run, again))
+            for idx, status, info, ms, backend in results:
+                r = recs[idx]
+                r.time_ms = (r.time_ms or 0) + ms
+                if status != "unknown":
+                    r.status, r.backend, r.model = status, backend + "(retry)", info
     return recs
 
 
